@@ -37,7 +37,7 @@ def _cfg(tier):
     return Cfg(nvars=(1, 3), pool=(2, 5), dom=(1, 3), max_product=27, profile="falsy", max_depth=2,
                allow_empty_cond=False, select="any", desc=("entity", "set_of"), value_terms_in_select=True,
                force_relate=False, noise=False, dom_kinds=("list",), use_k=False,
-               exclude_leaves=frozenset({"substr", "starts", "tval"}), kw_vars=(1, 4), const_operands=(0, 1),
+               exclude_leaves=frozenset({"substr", "starts", "tval", "fpred1d"}), kw_vars=(1, 4), const_operands=(0, 1),
                allow_nested_not="not_under_not" not in open_features())
 
 
@@ -54,7 +54,7 @@ def _with_prelude(draw, tier):
         # condition position is read as a boolean.  (No truthy twin here: relabelling would change what the condition
         # occurrence means; the Python reference decides.)
         import dataclasses
-        cfg = dataclasses.replace(_cfg(tier), exclude_leaves=frozenset({"substr", "starts"}), force_template="truth_or_value_pred",
+        cfg = dataclasses.replace(_cfg(tier), exclude_leaves=frozenset({"substr", "starts", "fpred1d"}), force_template="truth_or_value_pred",
                                   nvars=(1, 2), kw_vars=(0, 1))
         case = draw(query_case(cfg))
         case["share_terms"] = True
@@ -111,6 +111,8 @@ def _phi_term(t):
         if t[2] == "at_least":
             args = [enc(phi(dec(a))) for a in args]
         return ["call", _phi_term(t[1]), t[2], args]
+    if k == "pcall":
+        return ["pcall", t[1], [_phi_term(a) for a in t[2]]]
     if k in ("attr", "flat"):
         return [k, _phi_term(t[1])] + t[2:]
     if k == "idx":
